@@ -216,6 +216,9 @@ LAYOUTS = {
     "name-lit/y": ("/data/{name}/l1b/{year}/{month}{day}{hour}{minute}.nc", "3 hours"),
     "y/m/d/h": ("/data/{year}/{month}/{day}/{hour}/{minute}{second}.nc", "50 minutes"),
     "y/m-end": ("/data/{year}/{month}/{day}{hour}{minute}-{end_hour}{end_minute}.nc", None),
+    # a non-temporal (user placeholder) directory below / between the temporal ones
+    "y/m/d/name": ("/data/{year}/{month}/{day}/sat_{name}/{hour}{minute}.nc", "1 hour"),
+    "y/name/doy": ("/data/{year}/{name}/{doy}/{hour}{minute}.nc", "1 hour"),
 }
 
 
@@ -240,7 +243,7 @@ def _populate(fset, mfs, layout):
     return out
 
 
-@harness("C01.tree", cases=lambda tier: sorted(LAYOUTS) if tier == "thorough" else ["y/m/d", "y/doy", "y", "y2/m/d/h", "name/y/doy", "y/lit/m", "y/m-end", "flat"],
+@harness("C01.tree", cases=lambda tier: sorted(LAYOUTS) if tier == "thorough" else ["y/m/d", "y/doy", "y", "y2/m/d/h", "name/y/doy", "y/m/d/name", "y/lit/m", "y/m-end", "flat"],
          expect=lambda c: ["find-is-exact-on-the-tree"])
 def k_tree(ctx):
     layout = ctx.case
@@ -334,7 +337,7 @@ PLAN = {
 BOUNDS = {"quick": {"per-file decision": "flat template, n <= 2 files with arbitrary symbolic coverages (microsecond resolution), <= 1 symbolic "
                     "excluded period, every subset of names excluded, no / white / black filter on a user placeholder; symbolic [start, end), "
                     "symbolic membership instant; all instants inside the calendar window " + WIN.describe(),
-                    "directory pruning": "8 directory layouts (year/month/day, year/doy, year, year2/month/day/hour, user placeholder + year/doy, "
+                    "directory pruning": "9 directory layouts (year/month/day, year/doy, year, year2/month/day/hour, user placeholder above year/doy and below year/month/day, "
                                          "a literal directory between year and month, end fields, flat) x 8 concrete files placed at year / month / leap-day boundaries, file length <= one "
                                          "period of the finest directory level; every period [start, end) with microsecond bounds in 2019-12-01 .. 2020-04-01",
                     "bundling": "n <= 3 symbolic files, integer bundle sizes 1, 2, 4, sorted and unsorted; by time frequency (1D, 12h, 6h) on 8 concrete "
